@@ -153,7 +153,7 @@ def known_f4(entry):
     return compare(entry["replay"]["source"])
 
 
-KNOWN = {"F3": tmpl_python.known_f3, "F4": known_f4}
+KNOWN = {"F3": tmpl_python.known_f3, "F4": known_f4, "PY_COLLIDE_SKIP": tmpl_python.known_collide_skip}
 
 
 def units(tier, seed):
